@@ -33,6 +33,18 @@ PROPS = {
                         "sort's tie order is then unobservable); theorems do not need this",
                         "the responder in the correspondence is a static table; theorems quantify over stateful responders"],
     },
+    "C17": {
+        "streams": [{"name": "key", "quick": 20000, "thorough": 400000, "thorough_seeds": 3}],
+        "oracles": ["key"],
+        "rule": "one case per distinct operation text: peer ids (zero, all-ones, single-bit, random), texts that are valid, "
+                "mutated (foreign characters, CR/LF, non-canonical trailing bits, wrong length), one-bit neighbours for the order "
+                "law, OIDs with boundary arcs (0,39,40,127,128,2^14,2^21,2^31-1, >=2^31, invalid shapes), key bodies of length "
+                "0..300 and 2^16 boundaries, mutated DER; parse of arbitrary DER is compared one-sidedly",
+        "assumptions": ["encoding/asn1 is modelled only for the DER shape MarshalPublicKey emits; arbitrary DER is compared one-sidedly "
+                        "(what the strict model accepts Go must accept identically)",
+                        "hash functions are uninterpreted; the oracle checks each fingerprinter equals the hash of the canonical encoding",
+                        "the two packages' default fingerprinters use different hashes (SHAKE256 vs SHA3-256): observation, not an alarm (DESIGN section 7 note 23)"],
+    },
     "C15": {
         "streams": [{"name": "mux", "quick": 6000, "thorough": 300000, "thorough_seeds": 3}],
         "oracles": ["mux"],
